@@ -256,6 +256,9 @@ def evaluate(ck, exe, results):
     for rc, out, err, files in results:
         mods = parse(out)
         bump("modules_skipped", out.count("\nskip ") + (1 if out.startswith("skip ") else 0))
+        if rc == 3 and out.rstrip().endswith("HANG load"):
+            bump("load_timeouts")       # loading is not this property's subject (C02)
+            rc = 0
         if rc != 0:
             last = mods[-1] if mods else None
             if rc == 3 or (last is not None and "hang" in last):
